@@ -448,7 +448,13 @@ func (v *Validator) ValidatePath(p *ingest.GenericFeature, fs []ingest.Feature) 
 	o := ingest.ValidateOptions{InvertClockwisePaths: true}
 	if err := ingest.ValidatePath(p, &o, v.locations); err == nil {
 		fs = append(fs, p)
-		state = ValidationStateValid
+		// The state is only used to validate areas built from this path,
+		// which additionally need it to be closed.
+		if closedWithThreeOrMorePoints(p) {
+			state = ValidationStateValid
+		} else {
+			state = ValidationStateInvalid
+		}
 	} else {
 		state = ValidationStateInvalid
 		log.Printf("ValidatePath: drop invalid path: %s", err)
@@ -464,6 +470,18 @@ func (v *Validator) ValidatePath(p *ingest.GenericFeature, fs []ingest.Feature) 
 	}
 	v.lock.Unlock()
 	return fs
+}
+
+func closedWithThreeOrMorePoints(p *ingest.GenericFeature) bool {
+	n := p.GeometryLen()
+	if n < 3 {
+		return false
+	}
+	if first := p.PointAt(0); first.Norm() != 0 {
+		return first == p.PointAt(n-1)
+	}
+	first := p.Reference(0).Source()
+	return first.IsValid() && first == p.Reference(n-1).Source()
 }
 
 func (v *Validator) ValidateArea(a *ingest.AreaFeature, fs []ingest.Feature) []ingest.Feature {
